@@ -13,12 +13,13 @@ RULE = ("seeded runs of the real mutable-file stack (NodeMaker, MutableFileNode,
         "answer is delivered in a drawn order; operation histories and faults drawn per seed; non-trivial = at least one mutable operation completed; "
         "distinct = (probe counts, k, n, format, faults fired) fingerprint")
 RULE += '; plus the node obtained as cap / equal copy / write-cap+read-cap / via the parent directory, a directory variant (set_uri, delete, set_children, list) with a request-order reference model, deliberately failing operations, shares beyond the map-update cache with one-shot errors after the map query'
+RULE += "; in 30% of runs another client holding the same write cap edits the object at drawn instants (own operations then take modify()'s retry path)"
 TECHNIQUE = "deterministic simulation: seeded operation histories and delivery schedules vs byte-array reference model and on-disk ground truth"
 LEVEL_TEXT = "seeded search over histories, configurations, schedules and fault placements; sampling, not enumeration"
 LEVEL_NOTE = ("real: allmydata.client._Client, nodemaker, mutable.filenode/publish/retrieve/servermap/layout, storage server; stub: reactor, foolscap wire "
               "(SimRef), os.urandom, RSA key generation (committed pool of 2048-bit keys), CPU thread pool (simulated: synchronous, or completion as a reactor event after a drawn delay); ground truth is read from the servers' disks")
 REAL = ["allmydata.client._Client", "nodemaker", "mutable.filenode", "mutable.publish", "mutable.retrieve", "mutable.servermap", "mutable.layout", "storage.server", "storage.mutable"]
-STUB = ["reactor/time", "foolscap transport (SimNet/SimRef)", "os.urandom", "RSA keygen (pool)", "cputhreadpool (SimThreadPool: in a third of the runs the result is delivered by a reactor event after a drawn delay, otherwise synchronously)"]
+STUB = ["reactor/time", "foolscap transport (SimNet/SimRef; per-connection FIFO; in half of the runs arrivals are batched: several messages handed over before queued zero-delay turns run)", "os.urandom", "RSA keygen (pool)", "cputhreadpool (SimThreadPool: in a third of the runs the result is delivered by a reactor event after a drawn delay, otherwise synchronously)"]
 ASSUMPTIONS = ["per-connection FIFO delivery (TCP)", "RSA-PSS signatures are randomised (OpenSSL RNG) and excluded from digests"]
 
 
